@@ -4,6 +4,8 @@ import (
 	"fmt"
 	"go/token"
 	"go/types"
+	"os"
+	"runtime/debug"
 
 	"cffverif/internal/load"
 	"cffverif/internal/report"
@@ -965,7 +967,7 @@ var Rules = []report.Rule{
 	{ID: "S16", Floor: 3, Props: []string{"C05", "C06"}, Text: "the loop unconditionally defers close(finished), close(ready) and a drain of the enqueue channel (and stops its ticker)"},
 	{ID: "S17", Floor: 5, Props: []string{"C07", "C05"}, Text: "the loop returns only under (pending==0 && closed) or (job failed && !continueOnError, error stored); every iteration ends with the completion test"},
 	{ID: "S18", Floor: 2, Props: []string{"C05", "C07"}, Text: "a closed enqueue channel only disables the enqueue arm"},
-	{ID: "S19", Floor: 2, Props: []string{"C05"}, Text: "the result arm is never disabled; the enqueue arm only after close"},
+	{ID: "S19", Floor: 2, Props: []string{"C05", "C09"}, Text: "the result arm is never disabled; the enqueue arm only after close (Enqueue never blocks for long while the loop is alive, so generated code always gets to Wait, where cancellation is observed)"},
 	{ID: "S20", Floor: 4, Props: []string{"C05", "C07", "C09"}, Text: "Wait closes the enqueue channel, then selects on exactly ctx.Done (→ ctx.Err()) and finished (→ s.err, else ctx.Err())"},
 	{ID: "S21", Floor: 2, Props: []string{"C12", "C09", "C05"}, Text: "Enqueue only builds {ctx, run, deps}, sends it and returns it"},
 	{ID: "S22", Floor: 4, Props: []string{"C08", "C01"}, Text: "continue mode: job.err recorded on every failure path; every consumer invalidated; multierr.Append exactly for non-sentinel errors"},
@@ -984,6 +986,9 @@ var Rules = []report.Rule{
 func Run(repo *load.Repo, s *report.Sink) (err error) {
 	defer func() {
 		if r := recover(); r != nil {
+			if os.Getenv("CFFVERIF_TRACE") != "" {
+				os.Stderr.Write(debug.Stack())
+			}
 			err = fmt.Errorf("sched: analyser panic: %v", r)
 		}
 	}()
